@@ -15,15 +15,15 @@ ENTRIES = [
 
 
 def run(ctx):
-    H.rule_g1(ctx)
-    H.rule_d1(ctx)
-    H.rule_i1(ctx)
-    C.rule_chart_slot(ctx)
-    n1(ctx, ["geometry_tools/hyperbolic.py", "geometry_tools/projective.py"])
-    CA.rule_c2(ctx, "ProjectiveObject")
-    H.rule_h2(ctx)
-    H.rule_h1(ctx)
-    u1(ctx, ENTRIES, min_functions=15)
+    ctx.do(H.rule_g1)
+    ctx.do(H.rule_d1)
+    ctx.do(H.rule_i1)
+    ctx.do(C.rule_chart_slot)
+    ctx.do(n1, ["geometry_tools/hyperbolic.py", "geometry_tools/projective.py"])
+    ctx.do(CA.rule_c2, "ProjectiveObject")
+    ctx.do(H.rule_h2)
+    ctx.do(H.rule_h1)
+    ctx.do(u1, ENTRIES, min_functions=15)
     ctx.r.assume("round-trip equality, agreement of the closed-form metrics, "
                  "symmetry and the triangle inequality are numerical and not "
                  "decided")
